@@ -3,6 +3,7 @@ C12 driver: one case line (after the leading `C12` token)
 
   <method> p=<hex> q=<hex>|q=- h=<name:hex,...>|h=- b=<hex> ds=<status>:<bodyhex>:<hdrhex> f=<Rpc,...>|f=-
   pc=<hex> rc=<hex> pins=<hex,...>|pins=- np=<n> gc=<hex,...>|gc=- or=<arg>:<pp|!>:<cd|!>;...|or=- ing=<n> xp=<hex> dx=<cmd>|dx=-
+  [cf=<read_header_timeout ms>:<idle_timeout ms> dl=<daemon delay before its answer, ms>:<pause in the middle of the body, ms>]
   => st=<n> se=<0|1> rb=<hex> dh=<hex> it=<hex,...>|it=- d=<req;...>|d=- r=<rpc;...>|r=-
 
   req = METHOD|<pathhex>|<queryhex or ->|<name:hex,... or ->|<bodyhex>
@@ -82,8 +83,20 @@ def parseDs (s : String) : Option (Nat × Bytes × Bytes) :=
   | [st, b, h] => do pure (← st.toNat?, ← hex b, ← hex h)
   | _ => none
 
+def parsePair2 (s : String) : Option (Nat × Nat) :=
+  match s.splitOn ":" with
+  | [a, b] => do pure (← a.toNat?, ← b.toNat?)
+  | _ => none
+
 def parseCase (ws : List String) : Option (Input × Output × String) := do
-  let (pre, post) ← splitArrow ws
+  let (pre0, post) ← splitArrow ws
+  -- round 8: two optional trailing input tokens (absent = default configuration, prompt daemon)
+  let (pre, cfg, dl) ← (match pre0 with
+    | [m, p, q, h, b, ds, f, pc, rc, pins, np, gc, orc, ing, xp, dx, cf, dl] => do
+      let (rh, idle) ← parsePair2 (← field "cf=" cf)
+      let (dd, gap) ← parsePair2 (← field "dl=" dl)
+      pure ([m, p, q, h, b, ds, f, pc, rc, pins, np, gc, orc, ing, xp, dx], ({ readHeader := rh, idle := idle } : Timeouts), (dd, gap))
+    | l => some (l, ({} : Timeouts), (0, 0)))
   match pre, post with
   | [m, p, q, h, b, ds, f, pc, rc, pins, np, gc, orc, ing, xp, dx], [st, se, rb, dh, it, d, r] =>
     let (dst, dbody, dhdr) ← parseDs (← field "ds=" ds)
@@ -92,7 +105,8 @@ def parseCase (ws : List String) : Option (Input × Output × String) := do
         pinCid := ← hex (← field "pc=" pc), resCid := ← hex (← field "rc=" rc),
         pins := ← hexCsv (← field "pins=" pins), npeers := ← (← field "np=" np).toNat?,
         gcKeys := ← hexCsv (← field "gc=" gc), oracle := ← parseOracle (← field "or=" orc),
-        ing := ← (← field "ing=" ing).toNat?, extractPath := ← hex (← field "xp=" xp) }
+        ing := ← (← field "ing=" ing).toNat?, extractPath := ← hex (← field "xp=" xp),
+        cfg := cfg, dDelay := dl.1, dGap := dl.2 }
     let i : Input :=
       { method := m, path := ← hex (← field "p=" p), query := ← hexOpt (← field "q=" q),
         hdrs := ← parseHdrs (← field "h=" h), body := ← hex (← field "b=" b), env := env }
@@ -129,7 +143,7 @@ def answer (ws : List String) : String :=
       | some r => r.cid
       | none => []
     let obs : AddObs := { root := root, items := o.items }
-    let m := run i obs
+    let m := runNow i obs
     -- informational: a relayed request that a go-ipfs-cmds daemon would execute as one of the hijacked commands
     let a := arm i obs ++ (match tgt with
       | .relay => if dx != "-" then "-daemon-runs-" ++ dx else ""
@@ -139,7 +153,9 @@ def answer (ws : List String) : String :=
       "propfail " ++ ",".intercalate (failed.map (·.1)) ++ " arm=" ++ a
     else
       let why :=
-        if m.status != o.status then "status model=" ++ toString m.status
+        if (i.env.dDelay > 0 || i.env.dGap > 0) && !relaySetupUnderstood Gen.C12.relayTransport Gen.C12.relayTransportFields then
+          "relay-setup-not-understood"
+        else if m.status != o.status then "status model=" ++ toString m.status
         else if m.serr != o.serr then "serr model=" ++ toString m.serr
         else if m.rpcs != o.rpcs then "rpcs model-count=" ++ toString m.rpcs.length
         else match tgt with
